@@ -2,11 +2,11 @@
 
 package client
 
-// VerifSsvToJson exposes the option-string front end (C20).
-func VerifSsvToJson(ssv string) []byte { return ssvToJson(ssv) }
+// VerifC20SsvToJson exposes the option-string front end (C20).
+func VerifC20SsvToJson(ssv string) []byte { return ssvToJson(ssv) }
 
-// VerifTransport exposes the unexported fields of a processed TransportConfig.
-func VerifTransport(t TransportConfig) (mode, wsUrl, browserName string) {
+// VerifC20Transport exposes the unexported fields of a processed TransportConfig.
+func VerifC20Transport(t TransportConfig) (mode, wsUrl, browserName string) {
 	switch t.browser {
 	case chrome:
 		browserName = "chrome"
